@@ -744,10 +744,15 @@ class ConfigDict(Config):
 
 
 def _format_string(value: bytes) -> bytes:
+    # Quote whenever a reader (ours or git's) would otherwise alter the value:
+    # leading/trailing blanks are stripped, ';' and '#' start a comment, and
+    # a CR counts as whitespace outside of quotes.
     if (
         value.startswith((b" ", b"\t"))
         or value.endswith((b" ", b"\t"))
         or b"#" in value
+        or b";" in value
+        or b"\r" in value
     ):
         return b'"' + _escape_value(value) + b'"'
     else:
@@ -821,7 +826,6 @@ def _parse_string(value: bytes) -> bytes:
 def _escape_value(value: bytes) -> bytes:
     """Escape a value."""
     value = value.replace(b"\\", b"\\\\")
-    value = value.replace(b"\r", b"\\r")
     value = value.replace(b"\n", b"\\n")
     value = value.replace(b"\t", b"\\t")
     value = value.replace(b'"', b'\\"')
